@@ -103,8 +103,16 @@ def string_leaves(d, typ=None, key=None):
         yield (typ, key, d)
 
 
+def written_verbatim(t, k, s):
+    """True for values the printer writes verbatim and unquoted (expressions, regexes, list expressions, bindings of keywords whose
+    schema lists that alternative): the documented quote-character limitation concerns quoted values only."""
+    from . import printcheck
+
+    return printcheck.required_class(t, k, s) in ("expr", "not-expr", "regex", "list", "bind")
+
+
 def contains_quote(d, quote):
-    return any(quote in s for _, _, s in string_leaves(d))
+    return any(quote in s and not written_verbatim(t, k, s) for t, k, s in string_leaves(d))
 
 
 def has_backslash(d):
